@@ -190,7 +190,8 @@ prop(
     "the closure only runs inside .map of that fetch, and the fall-through arm returns None without running a closure; C05-R9 an iter expansion ends only by Break or after the loop of every matched archetype was entered and exhausted (no early way out that skips later matched archetypes). "
     "Compile-time witnesses (E4, generated): C05-R8 a seeded corpus of generated (world, query) programs over five worlds with overlapping, prefix-named component sets and all five query macros (quick 600, thorough 6000 queries): rustc's type checker decides that the closure body "
     "is instantiated for exactly the oracle's archetypes (an `impl Seen<MatchedArchetype>` per copy of the body against a `Seen<A0>+Seen<A1>..` bound for the iter family; an `Allowed` marker bound for over-matching in all five), that each parameter has its own column's type "
-    "(OneOf through an associated type chosen by the oracle), and that empty match sets and ambiguous OneOf are rejected with the generator's message. The oracle is written from the property text.",
+    "(OneOf through an associated type chosen by the oracle), and that empty match sets and ambiguous OneOf are rejected with the generator's message. The oracle is written from the property text."
+    "Reporting policy: a finding of the structural rules on the generator's own code (its MIR and template tokens: shape recognisers) is reported only if the generated-program corpus of this property also reports a difference or did not run in full; otherwise it is recorded in the evidence as an unconfirmed structural finding (a behaviour-preserving refactoring of the generator is not an alarm).",
     not_decided="nothing about run-time entity sets; these rules sample query programs -- the universal rules on the binder functions of the macro crate are listed separately",
 )
 
@@ -229,7 +230,8 @@ prop(
     "components get a fresh map and previous=None inside each archetype iteration, cfg-disabled items are skipped before id assignment; C15-R4 DataArchetype.id/DataComponent.id are the ids just assigned. "
     "Sampled: C15-R7 the evaluated ARCHETYPE_ID/COMPONENT_ID/NUM_ARCHETYPES constants of the specimen equal an independent oracle. "
     "Compile-time witnesses (E4, generated): C15-R8 every assignment of {implicit, 0, 1, 5, 254, 255} to 3 (thorough: also 4) archetypes and to 3 (4) components is compiled with `const _: () = assert!(..)` on ARCHETYPE_ID, ArchetypeHas::COMPONENT_ID, ecs_component_id! and NUM_ARCHETYPES "
-    "against an independent re-statement of the discriminant rule; declarations with a duplicate id or counting past 255 must be rejected with the generator's message (quick 432, thorough 3024 declarations); C15-R5 an id literal of 255 is accepted as written, literals above 255 are rejected.",
+    "against an independent re-statement of the discriminant rule; declarations with a duplicate id or counting past 255 must be rejected with the generator's message (quick 432, thorough 3024 declarations); C15-R5 an id literal of 255 is accepted as written, literals above 255 are rejected."
+    "Reporting policy: a finding of the structural rules on the generator's own code (its MIR and template tokens: shape recognisers) is reported only if the generated-program corpus of this property also reports a difference or did not run in full; otherwise it is recorded in the evidence as an unconfirmed structural finding (a behaviour-preserving refactoring of the generator is not an alarm).",
     not_decided="token emission of the ids (quote! interpolation) is witnessed on the specimen constants, not proved for all declarations",
 )
 
@@ -245,7 +247,8 @@ prop(
     "to_string(cfg.predicate) and form the conjunction; C16-R4 disabled archetypes/components are skipped before ids, structs and matching see them, disabled query parameters bind to every archetype (C05-R1 !enabled disjunct); C16-R5 cfg on OneOf is rejected. "
     "Compile-time witnesses (E4, generated): C16-R6 declarations decorated with every ordered triple of six distinct always-true/always-false predicates on archetypes and components at once, pairs/triples of #[cfg] on one item (conjunction), and cfg states x ids at the 255 boundary: "
     "const assertions on ids/NUM_ARCHETYPES and trait presence equal the oracle applied to the declaration with disabled items deleted; C16-R7 generated queries with cfg-decorated parameters and worlds with disabled archetypes/components are expanded for exactly the archetypes "
-    "of the same query with disabled parameters deleted (type-checker witnesses as C05-R8).",
+    "of the same query with disabled parameters deleted (type-checker witnesses as C05-R8); both corpora are judged differentially against the reduced twin compiled alongside."
+    "Reporting policy: a finding of the structural rules on the generator's own code (its MIR and template tokens: shape recognisers) is reported only if the generated-program corpus of this property also reports a difference or did not run in full; otherwise it is recorded in the evidence as an unconfirmed structural finding (a behaviour-preserving refactoring of the generator is not an alarm).",
     not_decided="that rustc evaluates cfg (trusted); the literal shape of the generated probe chain and the #attrs emission are judged by the template rules",
 )
 
@@ -259,7 +262,8 @@ prop(
     explanation="Static analysis. Universal parts: C18-R1 token scan (proc-macro2 lexer) of every quote!/quote_spanned!/format_ident! template and every Ident::new literal of the generator: no `unsafe`, no no_mangle/export_name/link_section/link/naked/allow(unsafe_code), "
     "no extern block, no static mut -- every other emitted token is a declared name, a literal or the user's own tokens; C18-R3 from fn_sig of every fn of gecs and of the specimen expansion: every region of the return type occurs in a parameter type or is 'static, raw-pointer structs tie their lifetime to PhantomData<&'a ..>; "
     "C18-R4 the only unsafe impls are Send/Sync for DataPtr<T> bounded on T, generated code has none; C18-R6 the parameter parser rejects `&mut` for exactly the entity kinds (derived from the enum's variants). "
-    "Witnessed parts: C18-R2 the specimen client crate is forbid(unsafe_code) and compiles in every configuration; C18-R5 24 minimal unsound client programs are rejected with the stated error code / macro message with the primary span on the marked line, and each sound twin compiles.",
+    "Witnessed parts: C18-R2 the specimen client crate is forbid(unsafe_code) and compiles in every configuration; C18-R5 28 minimal unsound client programs (use of a reference / guard / view across create, destroy or clone, two mutable accesses, `&mut` on each of the six entity parameter kinds over all five macros, Send/Sync of worlds following the components, private and unsafe items) are rejected with the stated error code / macro message with the primary span on the marked line, and each sound twin compiles. "
+    "C18-R6 is a shape recogniser on the parser: its findings are reported only if one of the `&mut` entity witnesses fails as well.",
     not_decided="soundness of gecs' internal unsafe code as a whole is the subject of C01-C04/C10; the witness corpus samples client programs",
 )
 
